@@ -1102,7 +1102,7 @@ func (d *driver) describeCookie(f *FilterSpec, v string, br *browser) map[string
 	if i := strings.Index(nv, "="); i >= 0 {
 		name, value = strings.TrimSpace(nv[:i]), strings.TrimSpace(nv[i+1:])
 	}
-	attrs := []any{}
+	attrs, attrsL := []any{}, []any{}
 	deleted, hasDomain := false, false
 	for _, a := range parts[1:] {
 		a = strings.TrimSpace(a)
@@ -1111,6 +1111,7 @@ func (d *driver) describeCookie(f *FilterSpec, v string, br *browser) map[string
 		}
 		attrs = append(attrs, a)
 		la := strings.ToLower(a)
+		attrsL = append(attrsL, strings.ReplaceAll(la, " ", ""))
 		if la == "max-age=0" || strings.HasPrefix(la, "max-age=-") {
 			deleted = true
 		}
@@ -1130,7 +1131,7 @@ func (d *driver) describeCookie(f *FilterSpec, v string, br *browser) map[string
 	if name == cookieName(f) {
 		nameSym = "own:" + f.Name
 	}
-	out := map[string]any{"name": nameSym, "nameRaw": name, "attrs": attrs, "deleted": deleted, "sid": "none", "_value": "", "fresh": false,
+	out := map[string]any{"name": nameSym, "nameRaw": name, "attrs": attrs, "attrsL": attrsL, "deleted": deleted, "sid": "none", "_value": "", "fresh": false,
 		"hostPrefix": strings.HasPrefix(name, "__Host-"), "hasDomain": hasDomain}
 	if deleted {
 		delete(br.jar, name)
